@@ -522,6 +522,12 @@ def check_unit(model, app, tag, W, ansi, mode):
         ap = path[:-1] + [n.aliases[0]]
         spellings += [("help:alias", ["help"] + ap), ("--help:alias", ap + ["--help"])]
     identity = n is None or (not model.gargs and not any(c.enabled and c.default for c in n.subs))
+    if not identity:
+        # The page printed is the application's (global argument) or a default sub-command's: nothing is demanded below
+        # the minimum width of whichever of them it is.
+        mw = max(min_width(model, x) for x in [None] + [n] + n.subs)
+        if W < mw:
+            return pages, vs
     texts = {}
     for how, tokens in spellings:
         pages += 1
@@ -543,9 +549,7 @@ def check_unit(model, app, tag, W, ansi, mode):
                     " ".join(tokens), "ApplicationHelp" if n is None else "CommandHelp(%s)" % " ".join(path)), direct, out))
         else:
             # which page the resolver picks is not asserted here: status, fit, disabled names, equal spellings only
-            mw = max(min_width(model, x) for x in [None] + [n] + n.subs)
-            if W >= mw:
-                vs += check_fit(out, W, "run", ansi)
+            vs += check_fit(out, W, "run", ansi)
             pl = strip_sgr(out)
             for x in model.nodes:
                 if not x.enabled:
